@@ -31,5 +31,5 @@ def check(run):
                         'XRayInit has an empty body (checked by the scan: no store, no call)']
     mods = ['c01', 'c02', 'c05', 'c08', 'c06', 'c12'] + (['c09', 'c10', 'c11', 'c13'] if run.tier == 'thorough' else ['c10', 'c13'])
     # value obligations of the structure factor (per-element scratch arrays on the stack): 'the result is this function of the arguments and tables' is the purity statement itself
-    frame.sweep(run, 'C16', keep=lambda oid: oid.endswith('/side') or oid.endswith('assemble/locale') or '/F/n1/value/' in oid, modules=mods + ['c07'])
+    frame.sweep(run, 'C16', keep=lambda oid: oid.endswith('/side') or oid.endswith('assemble/locale') or '/F/n1/value/' in oid or '/combine/' in oid, modules=mods + ['c07'])      # add_compound_data: fresh arrays must be initialised (CBMC's malloc returns arbitrary contents)
     scan(run, 'C16')
